@@ -107,11 +107,12 @@ pub fn run(args: &Args) {
                             tr.ev(json!({"op": "add", "t": t, "wf": wf, "ch": ch, "dur": dur, "att": att}));
                         }
                         6 | 7 => {
+                            let prev = match rng.below(6) { 0 => 0, 1 => 55, 2 => 54, 3 => if rng.chance(1, 2) { 56 } else { 57 + rng.below(144) }, _ => 1 + rng.below(54) };
                             let cap = if rng.chance(1, 5) { 33 } else { 9 };
-                            let n = rng.below(cap) as usize;
+                            // a previous sequence just outside 1..=55 meets a pattern long enough for the next chunk to have a cut
+                            let n = if prev == 56 || prev == 0 { 32 } else { rng.below(cap) as usize };
                             let cuts: Vec<(bool, u8, u8)> = (0..n).map(|_| { let k = if rng.chance(2, 3) { *rng.pick(&keys) } else { ("I", 1 + rng.below(5) as u8, rng.below(3) as u8) }; (rng.chance(1, 2), k.1, k.2) }).collect();
                             let vcp = vcp_of(&cuts);
-                            let prev = match rng.below(6) { 0 => 0, 1 => 55, 2 => 54, 3 => 56 + rng.below(145), _ => 1 + rng.below(54) };
                             res.case(fnv(format!("{:?}{}", cuts, prev).as_bytes()), n > 0);
                             match estimate(prev, &vcp, Some(&stats)) {
                                 Ok(e) => tr.ev(json!({"op": "est", "prev": prev, "cuts": cuts_json(&cuts), "res": e})),
